@@ -40,6 +40,7 @@ type Script struct {
 	KeyIDFn  func(keyName string) []byte                     // id of the key currently in the token
 	Signer   func(keyName string) crypto.Signer              // override key material (nil = from key file)
 	CertBlob func(keyName string) []byte                     // certificate chain "stored in the token" (nil = none)
+	CloseFn  func() error                                    // result of Close (nil = success)
 }
 
 var (
@@ -138,6 +139,13 @@ func (t *fakeToken) Close() error {
 	logCall(Call{Token: t.name, Op: "Close"})
 	verifhook.Emit("TokenClose", "token", t.name)
 	t.closed.Store(true)
+	s := For(t.name)
+	s.mu.Lock()
+	fn := s.CloseFn
+	s.mu.Unlock()
+	if fn != nil {
+		return fn()
+	}
 	return nil
 }
 
